@@ -284,6 +284,11 @@ def shell_forms(ctx, rid, report=True):
             isinstance(x, ast.Call) and (dotted(x.func) or '').endswith(('logsumexp', 'log'))
             or (isinstance(x, ast.Attribute) and x.attr == 'log_v')
             for x in ast.walk(n.ast.value))]
+        if not main:
+            ctx.ob(rid, 'Sampler.update_shell_info:computes(%s)' % attr, False, f.where(),
+                   '%s is never computed from the held samples / the bound volume in '
+                   'update_shell_info: it keeps whatever value it had' % attr)
+            continue
         if len(main) != 1:
             ctx.note('%s not decided: main assignment of %s not identified' % (rid, attr))
             continue
